@@ -198,6 +198,9 @@ PROPERTIES = {
             (E.E_extra_fields_order, "C11 self padded to merged label set before other's rows are matched"),
             (A2.A8_assertion_postdominates, "C11 consistency assertion"),
             (A2.A9_companion_index_lists, "C11 overridden rows deleted with the same kind's index list"),
+            (D.D2_type_counts, "C11 added terms resolve to the other's own coefficient text: the type offset equals the table length", {"pair": False}),
+            (A.A21_no_mutable_default_mutation, "C11 repeated extension: the identity-map parameter (mutable default) is never written"),
+            (A.A1w_who_may_mutate, "C11 extend modifies only the receiver", {"roots": ("Atoms.extend", "Atoms.replicate")}),
         ],
         "decided": "offset read before append; one selector for all per-atom appends; index map = appended rows overlaid with the identity map; identity-mapped atoms adopt the other's type + offset "
                    "and extra fields; per-kind blocks (convert, find existing, append, delete overridden) agree; forward and reverse override; label merge order",
@@ -213,6 +216,7 @@ PROPERTIES = {
             (A2.A12_extend_bookkeeping, "C12.5 terms copied per image by extend"),
             (B.B1_kind_blocks, "C12.5 per-kind blocks of extend agree (every kind of term is copied with its own types)", {"funcs": ["Atoms.extend", "Atoms._extend_extra_fields"]}),
             (E.E_extra_fields_order, "C12.5 extra columns survive the per-image extend"),
+            (A.A21_no_mutable_default_mutation, "C12 per-image extend: no state shared between calls through mutable defaults"),
         ],
         "decided": "cell scaling multiplies each lattice vector (row) by its own factor; image translation contracts the multipliers over the lattice axis; multipliers enumerate range(r) per "
                    "dimension with the zero image removed once; every extend in replicate passes zero offsets of the arity extend indexes; accumulator and images are deep copies",
@@ -237,6 +241,8 @@ PROPERTIES = {
         "rules": [
             (A2.A17_mass_guess, "C14 two-sided tolerance, nearest element, fallback for all types"),
             (E.E3_mass_table, "C14 mass table well-formed"),
+            (A.A22_no_module_state, "C14 the guess depends only on the masses and the tolerance of THIS call (no memo across calls)", {"modules": ("mofun.atoms", "mofun.helpers")}),
+            (D.D2_type_counts, "C14 write/read cycle: masses stay aligned with elements and labels when type tables are merged", {"kinds": ("atom",), "pair": False}),
         ],
         "decided": "the tolerance test is two-sided, the nearest entry is chosen, an exception is raised when none qualifies, the loader forwards its documented tolerance and on failure replaces the elements of all types",
         "not_decided": "the exhaustive sweep over the table as values",
@@ -270,6 +276,8 @@ PROPERTIES = {
             (E.E_bond_cutoff, "C17.1-3 cutoff formula, strict comparison on own elements, each pair once"),
             (E.E3_radius_tables, "C17.1 tables well-formed"),
             (C.C_axis_windows, "C17.4 all 27 images", {"only_images": True}),
+            (A.A1_inputs_not_mutated, "C17 bond detection does not modify (or cache anything on) its input", {"only": ["detect_bonds"]}),
+            (A.A22_no_module_state, "C17 no hidden module-level state", {"modules": ("mofun.detect_bonds",)}),
         ],
         "decided": "cutoff = r1 + r2 + (0.45 if either is a non-metal); strict < between a Euclidean distance and the cutoff of the two atoms' own elements, any over images; inner sequence is the suffix after "
                    "idx1 and the second index is rebuilt with the same offset; 27 image offsets when a cell exists, zero offset otherwise",
@@ -284,6 +292,8 @@ PROPERTIES = {
             (E.E3_uff_table, "C18.3 domain of the formulas over all 221 types", {"part": "domain"}),
             (E.E_bond_order_leaves, "C18.4 guessed bond orders are positive literals"),
             (B.B5_bond_order_arms, "C18 documented bond-order guesses: same-type pairs only, sibling arms agree"),
+            (A.A21_no_mutable_default_mutation, "C18 parameters do not depend on call history: mutable defaults are never written", {"funcs": ["angle_params"]}),
+            (A.A22_no_module_state, "C18 no hidden module-level state", {"modules": ("mofun.rough_uff",)}),
         ],
         "decided": "guess_bond_order, bond_params, angle_params, dihedral_params have identical decision lists under reversal of the type sequence; the linear/trigonal/square branch binds n and b on every path; "
                    "styles returned = styles formatted with matching arity; table columns used as divisor/sqrt argument are positive / non-negative for all rows; every guessed bond order is one of 1, 1.5, 2",
@@ -298,6 +308,7 @@ PROPERTIES = {
             (E.E3_uff_table, "C19.4 every UFF key's element prefix has a mass", {"part": "masses"}),
             (E.E_enumeration_shape, "C19.5 angle / dihedral enumeration shape"),
             (B.B6_uff_key_prefix, "C19.4 UFF keys are looked up by the padded two-character element field"),
+            (A.A21_no_mutable_default_mutation, "C19 coefficients do not depend on the order in which types are processed: mutable defaults are never written", {"funcs": ["angle_params"]}),
         ],
         "decided": "the three assign_* functions share one pipeline (exclusion threshold = arity, canonical key, first-seen numbering, parameters of unique keys, coefficient strings in the same order); "
                    "dihedral multiplicity key and None-removal are consistent; retyping derives labels, elements, masses and ids from one list; enumeration shapes",
